@@ -50,7 +50,11 @@ func (ex *Exec) chanSend(st *State, fr *Frame, ins *ssa.Send) bool {
 		ex.endPath(st, "blocked")
 		return false
 	}
-	nq := append(append([]Value(nil), c.q...), ex.eval(st, ins.X))
+	sentV := ex.eval(st, ins.X)
+	if st.traceOn && st.isShared(obj) {
+		ex.publish(st, sentV)
+	}
+	nq := append(append([]Value(nil), c.q...), sentV)
 	st.setChan(obj, &ChanV{q: nq, cap: c.cap, closed: c.closed, sent: c.sent + 1})
 	return true
 }
